@@ -1,4 +1,6 @@
 import IcyVerif.Model.BgiOps
+import IcyVerif.Model.BgiFill
+import IcyVerif.Model.BgiShapes
 import IcyVerif.Drv.Util
 /-! Line protocol for the BGI core model: `bgi run <op;op;…>` with `op = name,arg,…` replays the calls on
 `Bgi.new` and answers the values read by `gp` and the final state (canvas hash first), or `panic@<n>`. -/
@@ -24,6 +26,7 @@ inductive R where
   | st (s : Bgi)
   | val (s : Bgi) (v : Nat)
   | panic
+  | stall
 
 /-- request name and arguments → a call of the model (`gp` reads a pixel, everything else is an `Op`) -/
 def toOp (name : String) (a : List Int) : Option Op :=
@@ -53,6 +56,13 @@ def exec (s : Bgi) (name : String) (a : List Int) : R :=
   if name == "gp" then
     match getPixel s (a.getD 0 0) (a.getD 1 0) with | some v => .val s v | none => .panic
   else if name == "pc" && a.getD 0 0 < 0 then .panic
+  else if name == "rc" then
+    match rectangle s (a.getD 0 0) (a.getD 1 0) (a.getD 2 0) (a.getD 3 0) with | some s' => .st s' | none => .panic
+  else if name == "ff" then
+    match floodFill s (a.getD 0 0) (a.getD 1 0) (u8 (a.getD 2 0)) with
+    | .ok (s', _, _) => .st s'
+    | .panic => .panic
+    | .stall => .stall
   else match toOp name a with
     | none => .st s
     | some op => match applyOp s op with | some s' => .st s' | none => .panic
@@ -71,6 +81,7 @@ def runOps : Bgi → List String → Nat → List String → List String
     | .st s' => runOps s' rest (n + 1) acc
     | .val s' v => runOps s' rest (n + 1) (toString v :: acc)
     | .panic => (s!"panic@{n}" :: acc).reverse
+    | .stall => (s!"stall@{n}" :: acc).reverse
 
 def handle : List String → String
   | ["run", ops] => " | ".intercalate (runOps Bgi.new (ops.splitOn ";") 0 [])
